@@ -141,12 +141,14 @@ def build_jobs(ctx, quick, behs, rng):
                 J.add("e164f", cs, origin, False)
             for n in b["nm"] + b["nf"]:
                 J.enum(n)
+    for bad in (0, 12345, -1):
+        J.add("family", bad)
     n_universe = len(J.jobs)
     random_jobs(J, quick, rng)
     ctx.extra["universe"] = {"addresses_v6": cnt["a6"], "addresses_v4": cnt["a4"], "e164_texts": cnt["e164"],
                              "texts": sum(1 for j in J.jobs[:n_universe] if j[1] == "aton"),
                              "reverse_names": sum(1 for j in J.jobs[:n_universe] if j[1] == "toaddr"),
-                             "enum_names": sum(1 for j in J.jobs[:n_universe] if j[1] == "e164t") // 6,
+                             "enum_names": len({json.dumps(j[2][0]) for j in J.jobs[:n_universe] if j[1] == "e164t"}),
                              "universe_jobs": n_universe}
     ctx.extra["random_cases"] = len(J.jobs) - n_universe
     return J.jobs
@@ -205,6 +207,11 @@ def random_jobs(J, quick, rng):
 V4TAIL = re.compile(r"(^|:)\d+\.\d+\.\d+\.\d+\n$")
 
 
+# the clauses that fail when a text the specification refuses is ACCEPTED by the call
+ACCEPTS = {"Aton6", "Aton6Bytes", "Aton6IgnoreScope", "Pton6", "Canon6", "CanonInet", "AfForAddress", "IsAddress",
+           "IsMulticast", "LowLevelTuple", "FromAddress", "FromAddressOrigins"}
+
+
 def shape(cs):
     """abstract spelling of a text: digit runs -> #, other hex-digit runs -> h, the rest literal"""
     out = []
@@ -230,11 +237,11 @@ def classify(tr, line, clause):
     if "text" in e and op in ("aton", "canon", "inet", "fromaddr"):
         s = "".join(chr(c) for c in e["text"])
         head = s.split("%")[0] if op == "inet" or clause in ("Aton6IgnoreScope", "Pton6") else s
-        if V4TAIL.search(head) and ":" in head:
+        if V4TAIL.search(head) and ":" in head and clause in ACCEPTS:
             # X01-F1: "<ipv6 text ending in a dotted quad>\n" is accepted ('$' matches before a final newline)
             return "%s:%s:newline-after-embedded-ipv4" % (clause, op)
         return "%s:%s:%s" % (clause, op, shape(e["text"]))
-    if op == "toaddr" and clause in ("ToAddressRefuses", "ToAddressText") and e["res"][0] == "ok":
+    if op == "toaddr" and clause == "ToAddressRefuses" and e["res"][0] == "ok":
         n, o4, o6 = e["n"], e["o4"], e["o6"]
         low = [bytes(x).lower() for x in n]
         for fam, o in (("v4", o4), ("v6", o6)):
